@@ -236,13 +236,16 @@ theorem C01_discipline_sufficient (f : StampFacts) (h : f.ok = true) : ¬ Breaks
   rw [← run_append]
   exact C01_run_snapshot_frozen f h ops1 ops2 v hv n
 
-/-! ## `lpm.Txn.Commit` does not bump the committing transaction
+/-! ## a Commit that does not bump the committing transaction (defect F12, repaired)
 
-`part.Txn.Commit` increments `txn.txnID` before building the tree.  `lpm.Txn.Commit` does not:
-it stores `prevTxnID = txnID` and `Trie.Txn()`/`Txn.Reuse` add one.  tools/extract records this
-as `bumpCommit` for `lpm`, and that is right as long as the committing `lpm.Txn` is not written
-to again before `Clear`/`Reuse` — which holds in statedb (`lpmIndexTxn.commit` calls `Clear()`
-at once) but is not enforced by the `lpm` API. -/
+`part.Txn.Commit` increments `txn.txnID` before building the tree.  Up to commit e7d69b4
+`lpm.Txn.Commit` did not: it stored `prevTxnID = txnID` and only `Trie.Txn()`/`Txn.Reuse` added
+one, which is sound only when the committing `lpm.Txn` is not written to again before
+`Clear`/`Reuse` (true of statedb's own caller, not enforced by the `lpm` API).  `St.lpmCommit`
+models that old Commit; the two theorems below say exactly when it was harmless and exhibit the
+run on which it was not.  The check found the same run on the implementation (corpus/C13), the
+`fix:` commit added the bump, and tools/extract now reports `bumpCommit` for `lpm` only if
+`Txn.Commit` itself increments `txn.txnID`. -/
 
 /-- `Commit(); Clear()` of `lpm` is the `publish .commit` step followed by `abandon`, so it is
     covered by the theorems above -/
@@ -251,8 +254,8 @@ theorem C01_lpm_commit_then_clear_is_publish (s : St) (i : Nat) :
       (s.exec Gen.lpmStamp (.publish i .commit)).exec Gen.lpmStamp (.abandon i) :=
   St.lpmCommit_clear _ rfl s i
 
-/-- … whereas an `lpm.Txn` that is written to after `Commit()` without `Clear`/`Reuse` changes the
-    committed trie in place, although every extracted fact holds -/
+/-- … whereas a transaction written to after such a bump-less Commit (without `Clear`/`Reuse`)
+    changes the committed trie in place -/
 theorem C01_lpm_write_after_commit_refuted :
     ∃ v ∈ ((run Gen.lpmStamp [.begin 0 0 0, .mkRoot 0] init).lpmCommit 0).views,
       content ((((run Gen.lpmStamp [.begin 0 0 0, .mkRoot 0] init).lpmCommit 0).exec Gen.lpmStamp
